@@ -379,10 +379,28 @@ func (ex *exec) symStringSlice(s *Term, lo, hi value) value {
 	if ex.decideBool(bad, "string-slice-out-of-range") {
 		panic(runtimeError("slice bounds out of range [string]"))
 	}
+	if l.isConst() && l.n.Int64() <= 64 {
+		// known length: concretise symbolic bounds to keep the character structure
+		n := l.n.Int64()
+		if !a.isConst() {
+			a = mkInt64(ex.concretizeInt(a, 0, n, "string-slice-low"))
+		}
+		if !b.isConst() {
+			b = mkInt64(ex.concretizeInt(b, a.n.Int64(), n, "string-slice-high"))
+		}
+	}
 	return valueOfTerm(mkSubstr(s, a, tSub(b, a)), types.String)
 }
 
 func mkSubstr(s, off, n *Term) *Term {
+	if off.isConst() && n.isConst() && !s.isConst() {
+		if cs, ok := charSeq(s); ok {
+			o, k := int(off.n.Int64()), int(n.n.Int64())
+			if o >= 0 && k >= 0 && o+k <= len(cs) {
+				return seqStr(cs[o : o+k])
+			}
+		}
+	}
 	if s.isConst() && off.isConst() && n.isConst() {
 		o, k := int(off.n.Int64()), int(n.n.Int64())
 		if o >= 0 && k >= 0 && o+k <= len(s.s) {
